@@ -227,7 +227,7 @@ PROPS["C01"] = dict(
 
 PROPS["C03"] = dict(
     suites=["c03", "c03b"],
-    lean_modules=["ServlinVerif.Props.C03", "ServlinVerif.Props.C05"],
+    lean_modules=["ServlinVerif.Props.C03", "ServlinVerif.Props.C05", "ServlinVerif.Props.C04Pipeline"],
     audit="Audit/C03.lean",
     rule="read_http_request on the cross product method {GET,HEAD,POST,PUT,DELETE,PATCH} x 20 Content-Length multisets (absent, 0, 5, 2^64-1, "
          "2^64, +5, -5, 0005, abc, empty, repeated equal/different, lists, VT-padded...) x 15 Transfer-Encoding multisets (absent, chunked, "
@@ -406,7 +406,7 @@ PROPS["C05"] = dict(
 PROPS["C04"] = dict(
     suites=["c04"],
     shards={"c04": 4},
-    lean_modules=["ServlinVerif.Props.C04", "ServlinVerif.Props.C05"],
+    lean_modules=["ServlinVerif.Props.C04", "ServlinVerif.Props.C05", "ServlinVerif.Props.C04Pipeline"],
     audit="Audit/C04.lean",
     rule="HttpServerBuilder::spawn on loopback with a scripted handler (behaviour looked up by request path; every call logged): 700 (6000) "
          "sequences of 1..12 requests drawn from {no body, small body, body above the in-memory threshold, Expect: 100-continue, unknown-length "
@@ -479,7 +479,7 @@ PROPS["C10"] = dict(
 
 PROPS["C11"] = dict(
     suites=["c11", "c11c"],
-    lean_modules=["ServlinVerif.Props.C11", "ServlinVerif.Props.C07"],
+    lean_modules=["ServlinVerif.Props.C11", "ServlinVerif.Props.C07", "ServlinVerif.Props.C11Format"],
     audit="Audit/C11.lean",
     rule="c11c: the checked constructor Event::custom on 19 hand-picked types x 3 data and on every type of up to 4 (5) symbols over {a, SP, CR, LF, ':', e-acute} "
          "(a type with a line break must be refused, any other accepted and encoded as the model says). c11: "
